@@ -145,6 +145,21 @@ def exception_corpus(marker: str = 'MARKER-exc-zq') -> list:
     return out
 
 
+def rpc_error_corpus() -> list:
+    """every boundary error code raised once by a method per way of serving it (as a call next to a notification): the 32 / 53 / 64 bit
+    boundaries on both sides, codes far beyond them, the falsy code, codes with and without a registered class; with and without data"""
+    t = lambda doc: {'doc': doc, 'ascii': True, 'indent': 0, 'pad': '', 'huge': None, 'mangle': None}  # noqa: E731
+    codes = [0, -1, 2**31 - 1, 2**31, -2**31 - 1, 2**53, 2**53 + 1, -2**53 - 1, 2**63 - 1, 2**63, -2**63, -2**63 - 1, 2**64, 10**30, -10**30, -32099, -32000, 2008]
+    out = []
+    for kind, plain in (('sync', False), ('async', False), ('async', True)):
+        for i, code in enumerate(codes):
+            data = {'absent': True} if i % 2 else {'value': {'n': code}}
+            beh = {'rpc_err': {'kind': 'raise_rpc', 'error': {'cls': 'JsonRpcError', 'code': code, 'message': 'boundary code', 'data': data}}}
+            out.append({'dispatcher': kind, 'plain': plain, 'max_batch_size': None, 'behaviours': beh,
+                        'text': t([{'jsonrpc': '2.0', 'id': 1, 'method': 'rpc_err'}, {'jsonrpc': '2.0', 'method': 'rpc_err'}, {'jsonrpc': '2.0', 'id': 2, 'method': 'noargs'}])})
+    return out
+
+
 _GEN = None
 
 
